@@ -14,6 +14,7 @@ package core
 import (
 	"bytes"
 	"crypto/sha256"
+	"sort"
 	"strings"
 	"encoding/hex"
 	"encoding/json"
@@ -73,6 +74,7 @@ func c07Cases() []c07Params {
 		add("failed", "", "")
 		add("refused-period", "", "")
 		add("refused-late", "", "")
+		add("evicted", "", "")
 		return out
 	}
 	for rep := 0; rep < 2; rep++ {
@@ -86,6 +88,7 @@ func c07Cases() []c07Params {
 				add("refused-period", "", s)
 				add("refused-late", "", s)
 			}
+			add("evicted", "", s)
 		}
 	}
 	return out
@@ -261,6 +264,11 @@ func (m *c07Mon) onCall(from *c13Node, method, target string, req any, start tim
 	}
 	sw, ok := m.putAt[recv.idx][m.tr-1]
 	if !ok || start.Sub(sw) < m.nt.period/2 {
+		return
+	}
+	if m.nt.starvedBetween(sw, time.Now()) {
+		// the evidence "switched half a period ago" assumes the receiver's callback goroutine got to run
+		m.run.Inconclusive(fmt.Sprintf("case %d: a leaver's partial for round %d was answered ok by node %d, but this process was starved of CPU around that time", m.p.CaseIndex, pk.Round, recv.idx))
 		return
 	}
 	m.run.Violation("C07/old-share-partial-accepted/leaver", fmt.Sprintf(
@@ -543,7 +551,40 @@ func c07Main(t *testing.T, run *vfRun, p c07Params, dir string) {
 	// ---- the successful reshare
 	rs := c13Reshare{leader: ns[0], remaining: members, thr: thr}
 	var leaver *c13Node
+	var evicted *c13Node
 	switch p.Kind {
+	case "evicted":
+		// one member of the proposed group misses the execution and is evicted by the DKG: the resulting group has a
+		// hole in its DKG indices. The absent member is any but the one with the largest key (members listed after
+		// the hole keep their DKG index); the leader is the member with the largest key. Threshold = size of the
+		// resulting group, so a member listed after the hole is needed for every beacon.
+		sorted := append([]*c13Node(nil), members...)
+		sort.Slice(sorted, func(i, j int) bool { return string(sorted[i].part.Key) < string(sorted[j].part.Key) })
+		evicted = sorted[vfNewRng(p.Seed).Intn(len(sorted)-1)]
+		lead := sorted[len(sorted)-1]
+		rem := []*c13Node{lead}
+		for _, n := range members {
+			if n != lead {
+				rem = append(rem, n)
+			}
+		}
+		rs.leader, rs.remaining, rs.absent = lead, rem, []*c13Node{evicted}
+		rs.thr = len(members) - 1
+		newThr = rs.thr
+		rs.afterExecute = func() {
+			// the execute packet is out, the kyber protocol starts after the kick-off grace: the member goes away now
+			if ok, dump := nt.stopNode(evicted); !ok {
+				run.Count("daemon_stop_hangs", 1)
+				run.Note("the member that was to miss the execution did not stop:\n" + dump)
+			}
+		}
+		pos := 0
+		for i, n := range sorted {
+			if n == evicted {
+				pos = i
+			}
+		}
+		run.Seen("evicted_position_in_key_order", fmt.Sprintf("%d-of-%d", pos, len(sorted)))
 	case "same":
 		if thr+1 <= len(members) {
 			newThr = thr + 1
@@ -574,6 +615,23 @@ func c07Main(t *testing.T, run *vfRun, p c07Params, dir string) {
 	}
 	run.Count("successful_reshares", 1)
 	newMembers := append(append([]*c13Node(nil), rs.remaining...), rs.joining...)
+	if evicted != nil {
+		newMembers = nil
+		for _, n := range rs.remaining {
+			if n != evicted {
+				newMembers = append(newMembers, n)
+			}
+		}
+		if g2.Find(evicted.priv.Public) != nil || len(g2.Nodes) != len(newMembers) {
+			fail("reshare with an absent member", fmt.Errorf("the resulting group has %d nodes and contains the absent member: %v", len(g2.Nodes), g2.Find(evicted.priv.Public) != nil))
+			return
+		}
+		var idx []uint32
+		for _, nd := range g2.Nodes {
+			idx = append(idx, nd.Index)
+		}
+		run.Note(fmt.Sprintf("case %d: group after the eviction lists indices %v, threshold %d", p.CaseIndex, idx, g2.Threshold))
+	}
 	tr := common.CurrentRound(g2.TransitionTime, g2.Period, g2.GenesisTime)
 	m.mu.Lock()
 	m.tr = tr
@@ -597,7 +655,11 @@ func c07Main(t *testing.T, run *vfRun, p c07Params, dir string) {
 
 	// ---- across the transition
 	run.Eval(fmt.Sprintf("%s/%s/progress-across-transition", p.Kind, p.Variant))
-	if !c07Progress(run, m, newMembers, tr+5, int(tr-nt.clockRound())+40, "C07/halted-after-transition/"+p.Kind,
+	haltSig := "C07/halted-after-transition/" + p.Kind
+	if evicted != nil {
+		haltSig = "C07/halted-after-transition/evicted-member"
+	}
+	if !c07Progress(run, m, newMembers, tr+5, int(tr-nt.clockRound())+40, haltSig,
 		fmt.Sprintf("across the transition round %d (all %d members of the new group up, threshold %d)", tr, len(newMembers), newThr)) {
 		return
 	}
@@ -765,10 +827,17 @@ func c07Refused(run *vfRun, m *c07Mon, p c07Params, dir string, ns []*c13Node, t
 		}
 	}
 	var tr uint64
+	refusedEarly := false
 	switch p.Kind {
 	case "refused-period":
 		_, err := nt.runReshare(c13Reshare{leader: leader, remaining: ns, thr: thr, coreRefuses: true})
-		if !errors.Is(err, errC13CoreRefusedOutput) {
+		switch {
+		case errors.Is(err, errC13CoreRefusedOutput):
+		case err != nil && strings.Contains(err.Error(), "beacon period cannot change"):
+			// the DKG layer of the remaining members already refuses such a proposal: nothing must have changed either
+			refusedEarly = true
+			run.Count("proposals_with_another_period_refused_by_dkg_layer", 1)
+		default:
 			fail("reshare with another period", fmt.Errorf("unexpected outcome: %v", err))
 			return
 		}
@@ -788,7 +857,9 @@ func c07Refused(run *vfRun, m *c07Mon, p c07Params, dir string, ns []*c13Node, t
 			time.Sleep(100 * time.Millisecond)
 		}
 	}
-	run.Count("reshares_completed_in_dkg_layer_refused_by_core", 1)
+	if !refusedEarly {
+		run.Count("reshares_completed_in_dkg_layer_refused_by_core", 1)
+	}
 	// the DKG databases say "epoch 2 complete" on every member
 	for _, n := range refusers {
 		if st, err := nt.dkgStatus(n); err == nil && st.Complete != nil {
@@ -849,7 +920,7 @@ func c07Refused(run *vfRun, m *c07Mon, p c07Params, dir string, ns []*c13Node, t
 
 	// observation (no verdict): what the DKG layer makes of it. Its databases recorded the refused epoch as
 	// completed, and proposals take the beacon period from that record: can the group still reshare?
-	if p.Kind == "refused-period" {
+	if p.Kind == "refused-period" && !refusedEarly {
 		honest := ns[1]
 		_, err := nt.runReshare(c13Reshare{leader: honest, remaining: append([]*c13Node{honest}, append(append([]*c13Node(nil), ns[:1]...), ns[2:]...)...), thr: thr, coreRefuses: true})
 		outcome := "dkg-layer-completed-again"
